@@ -94,7 +94,8 @@ PLANS["C20"] = dict(stages=[dict(bin="to_nsq", world="tonsq", prop="C20", share=
     assumptions=ASSUME, crash_property="C20")
 
 WORLD_BIN = {"tonsq": "to_nsq", "nsq2nsq": "nsq_to_nsq", "nsq2http": "nsq_to_http", "tofile": "nsq_to_file", "policy": "world", "queue": "world", "lookupd": "world", "proto": "world", "meta": "world", "cluster": "world", "admin": "world"}
-SELFTEST_WORLDS = [("queue", "ALL"), ("queue", "C08"), ("queue", "C05"), ("lookupd", "C14"), ("lookupd", "C15")]
+SELFTEST_WORLDS = [("queue", "ALL"), ("queue", "C08"), ("queue", "C05"), ("queue", "C12"), ("lookupd", "C14"), ("lookupd", "C15"), ("proto", "C09"), ("proto", "C10"),
+                   ("policy", "C11"), ("meta", "C06"), ("cluster", "C16"), ("admin", "C17"), ("admin", "C18"), ("tofile", "C19"), ("tonsq", "C20"), ("nsq2nsq", "C20"), ("nsq2http", "C20")]
 ALL_TARGETS = ["world", "world_race", "nsq_to_file", "to_nsq", "nsq_to_nsq", "nsq_to_http"]
 
 SIMNOTE = ("assumes the trusted base of DESIGN.md 6: Go 1.26.8 synctest + five runtime patches, the two-rule AST rewriter, simnet/simos fidelity, "
